@@ -293,13 +293,13 @@ func (e *EncryptedISO) setIVForSector(sector sizeSectors, clone bool) cipher.Blo
 func tryGetRedumpKey(fsys afero.Fs, requestedPath string) ([]byte, error) {
 	// encryption makes sense only for .iso or .ISO file inside ps3ISO or PS3ISO directory
 	ext := filepath.Ext(requestedPath)
-	if strings.ToLower(ext) != isoExt {
+	if !strings.EqualFold(ext, isoExt) {
 		return nil, afero.ErrFileNotFound
 	}
 
 	pathElems := strings.Split(requestedPath, string(filepath.Separator))
 	ps3IsoIdx := slices.IndexFunc(pathElems, func(s string) bool {
-		return strings.ToLower(s) == ps3isoDir
+		return strings.EqualFold(s, ps3isoDir)
 	})
 	if ps3IsoIdx < 0 {
 		return nil, afero.ErrFileNotFound
@@ -311,7 +311,7 @@ func tryGetRedumpKey(fsys afero.Fs, requestedPath string) ([]byte, error) {
 		defer keyFile.Close()
 		return ReadKeyFile(keyFile)
 	}
-	if !errors.Is(err, afero.ErrFileNotFound) {
+	if !keyFileAbsent(err) {
 		// key file exists but can't be opened, image must not be served as is
 		return nil, err
 	}
@@ -324,8 +324,17 @@ func tryGetRedumpKey(fsys afero.Fs, requestedPath string) ([]byte, error) {
 		defer keyFile.Close()
 		return ReadKeyFile(keyFile)
 	}
+	if keyFileAbsent(err) {
+		return nil, afero.ErrFileNotFound
+	}
 
 	return nil, err
+}
+
+// keyFileAbsent tells if error of opening key file means that there is no such file:
+// it doesn't exist, something on the way to it is not a directory or such name can't exist at all.
+func keyFileAbsent(err error) bool {
+	return errors.Is(err, afero.ErrFileNotFound) || errors.Is(err, syscall.ENOTDIR) || errors.Is(err, syscall.ENAMETOOLONG)
 }
 
 func deriveISOKey(targetKey, data1Key []byte) error {
